@@ -12,14 +12,20 @@ From Verif Require Import lib.Int64 lib.Bytes lib.Varint model.HeadChunks.
 Import ListNotations.
 Open Scope N_scope.
 
-(* ------------------------------------------------------------------ CRC-32C (Castagnoli), bitwise, reflected *)
-Fixpoint crc_bits (n : nat) (c : N) : N :=
+(* ------------------------------------------------------------------ CRC-32C (Castagnoli), bitwise, reflected;
+   computed on primitive 63-bit integers (the values stay below 2^32) *)
+Fixpoint crc_bits (n : nat) (c : int) : int :=
   match n with
   | O => c
-  | S k => crc_bits k (if N.odd c then N.lxor (N.shiftr c 1) 2197175160 (* 0x82F63B78 *) else N.shiftr c 1)
+  | S k => crc_bits k (if Uint63.eqb (Uint63.land c 1%uint63) 1%uint63
+                       then Uint63.lxor (Uint63.lsr c 1%uint63) 2197175160%uint63 (* 0x82F63B78 *)
+                       else Uint63.lsr c 1%uint63)
   end.
+Definition int_of_N (b : N) : int := Uint63.of_Z (Z.of_N b).
+Definition N_of_int (x : int) : N := Z.to_N (Uint63.to_Z x).
 Definition crc32c (bs : list N) : N :=
-  N.lxor (fold_left (fun c b => crc_bits 8 (N.lxor c b)) bs 4294967295) 4294967295.
+  N_of_int (Uint63.lxor (fold_left (fun c b => crc_bits 8 (Uint63.lxor c (int_of_N b))) bs 4294967295%uint63)
+                        4294967295%uint63).
 
 (* byte strings are written by the harness packed seven bytes to a primitive integer (big endian
    inside the word); [pk len ws] unpacks the first len bytes *)
@@ -30,13 +36,15 @@ Definition unpack7 (x : int) : list N :=
    byte_at x 16%uint63; byte_at x 8%uint63; byte_at x 0%uint63].
 Definition pk (len : nat) (ws : list int) : list N := firstn len (flat_map unpack7 ws).
 
-(* long chunk data is written compactly by the harness: the bytes of a linear congruential generator *)
-Fixpoint gen_data_aux (n : nat) (x : N) : list N :=
+(* long chunk data is written compactly by the harness: the bytes of a linear congruential generator
+   x' = (x * 1103515245 + 12345) mod 2^31, byte = (x' / 2^16) mod 256 *)
+Fixpoint gen_data_aux (n : nat) (x : int) : list N :=
   match n with
   | O => []
-  | S k => let x' := (x * 1103515245 + 12345) mod 2147483648 in ((x' / 65536) mod 256) :: gen_data_aux k x'
+  | S k => let x' := Uint63.land (Uint63.add (Uint63.mul x 1103515245%uint63) 12345%uint63) 2147483647%uint63 in
+           N_of_int (Uint63.land (Uint63.lsr x' 16%uint63) 255%uint63) :: gen_data_aux k x'
   end.
-Definition gen_data (seed len : N) : list N := gen_data_aux (N.to_nat len) seed.
+Definition gen_data (seed len : N) : list N := gen_data_aux (N.to_nat len) (int_of_N seed).
 
 (* ------------------------------------------------------------------ equality tests *)
 Definition refs_eqb (a b : list N) : bool := bytes_eqb a b.
